@@ -5,4 +5,5 @@ let () = Driver.main [
   { Driver.name = "consts"; run = consts_run; judge = consts_judge };
   { Driver.name = "rxpipe"; run = rxpipe_run; judge = rxpipe_judge };
   { Driver.name = "reset"; run = reset_run; judge = reset_judge };
+  { Driver.name = "resetmap"; run = resetmap_run; judge = resetmap_judge };
 ]
